@@ -250,3 +250,39 @@ func selftestInstrumentedTests() int {
 	fmt.Println("SELFTEST OK")
 	return 0
 }
+
+// selftestInstrumenter rewrites a synthetic module that uses every construct
+// the instrumenter knows (and a few it must leave alone) and requires the
+// result to compile and pass the module's own tests with no simulator attached.
+func selftestInstrumenter() int {
+	root := verifRoot()
+	scratch, err := os.MkdirTemp("", "verif-synth.")
+	if err != nil {
+		fmt.Fprintln(os.Stderr, err)
+		return 2
+	}
+	defer os.RemoveAll(scratch)
+	env := append(goEnv(), "CGO_ENABLED=0")
+	out, err := runCmd(root, env, root+"/bin/instrument", "-src", root+"/cmd/instrument/testdata/synth", "-dst", scratch+"/m", "-simrt", root+"/simrt", "-report", scratch+"/rep.json")
+	if err != nil {
+		fmt.Printf("instrument failed: %v\n%s\nSELFTEST FAILED\n", err, out)
+		return 1
+	}
+	for _, args := range [][]string{{"test", "-count=1", "./..."}, {"test", "-race", "-count=1", "./..."}} {
+		out, err = runCmd(scratch+"/m", goEnv(), goBin, args...)
+		if err != nil {
+			fmt.Printf("go %v on the instrumented synthetic module failed: %v\n%s\nSELFTEST FAILED\n", args, err, out)
+			return 1
+		}
+	}
+	rb, _ := os.ReadFile(scratch + "/rep.json")
+	var rep InstrReport
+	json.Unmarshal(rb, &rep)
+	kinds := make([]string, 0, len(rep.Counts))
+	for k := range rep.Counts {
+		kinds = append(kinds, k)
+	}
+	sort.Strings(kinds)
+	fmt.Printf("instrumenter: %d sites of %d kinds rewritten in the synthetic module, %d left alone (%v); tests pass plain and -race\nSELFTEST OK\n", len(rep.Sites)-1, len(kinds), len(rep.Uninstrumented), rep.Uninstrumented)
+	return 0
+}
